@@ -187,8 +187,16 @@ class Interp:
         t = self.check(cond)
         f = self.check(z3.Not(cond))
         if t == "unsat" and f == "unsat":
-            self.obligations.append(Obligation("prune", "prune", z3.BoolVal(False), self.pc, (("prune-both", site), tuple(self.decisions[: self.pos])), ""))
-            raise PathAbort("infeasible")
+            if self.confirm_unsat(z3.BoolVal(True)):
+                self.obligations.append(Obligation("prune", "prune", z3.BoolVal(False), self.pc, (("prune-both", site), tuple(self.decisions[: self.pos])), ""))
+                raise PathAbort("infeasible")
+            t = f = "unknown"
+        # a side is pruned only when a second solver confirms that it is infeasible; otherwise
+        # both sides are explored (z3 5.1.0 alone is not trusted with `unsat`)
+        if t == "unsat" and not self.confirm_unsat(cond):
+            t = "unknown"
+        if f == "unsat" and not self.confirm_unsat(z3.Not(cond)):
+            f = "unknown"
         if t == "unsat":
             d = False
             self.obligations.append(Obligation("prune", "prune", z3.Not(cond), self.pc, (("prune", site), tuple(self.decisions[: self.pos])), ""))
@@ -202,6 +210,22 @@ class Interp:
         self.pos += 1
         self.assume(cond if d else z3.Not(cond))
         return d
+
+    def confirm_unsat(self, extra) -> bool:
+        """pc /\ extra is unsatisfiable according to /usr/bin/z3 4.8.12 (short budget)."""
+        from .solve import _cli_check
+        s = z3.Solver()
+        for f in self.pc:
+            s.add(f)
+        s.add(extra)
+        try:
+            res, _ms = _cli_check(s.to_smt2(), "z3", 3)
+        except Exception:
+            return False
+        self.stats_confirm = getattr(self, "stats_confirm", 0) + 1
+        if res == "sat":
+            self.notes.add("z3-5.1.0 `unsat` on a branch side contradicted by z3-4.8.12 (`sat`): side explored")
+        return res == "unsat"
 
     def choose(self, n: int, site="") -> int:
         """n-way nondeterministic choice (encoded with binary decisions, no conditions)."""
@@ -498,17 +522,17 @@ class Interp:
                 return v
             if self.branch(v.ty.is_none(v.term)):
                 return NONE
-            return self.assume_wf(SV(v.ty.inner, z3.simplify(v.ty.val(v.term))))
+            return self.assume_wf(SV(v.ty.inner, acc(v.ty.val(v.term))))
         if isinstance(v, SV) and isinstance(v.ty, TUnion):
             if fr.pure:
                 return v
             for i, a in enumerate(v.ty.alts[:-1]):
                 if self.branch(v.ty.is_alt(i, v.term)):
-                    return NONE if a is TNone else self.assume_wf(SV(a, z3.simplify(v.ty.proj(i, v.term))))
+                    return NONE if a is TNone else self.assume_wf(SV(a, acc(v.ty.proj(i, v.term))))
             i = len(v.ty.alts) - 1
             a = v.ty.alts[i]
             self.assume(v.ty.is_alt(i, v.term))
-            return NONE if a is TNone else self.assume_wf(SV(a, z3.simplify(v.ty.proj(i, v.term))))
+            return NONE if a is TNone else self.assume_wf(SV(a, acc(v.ty.proj(i, v.term))))
         return v
 
     # ------------------------------------------------------------------ truthiness / equality
@@ -618,6 +642,10 @@ class Interp:
             return self.coerce(a, TInt).term == self.coerce(b, TInt).term
         if ta is TStr and tb is TStr:
             return a.term == b.term
+        if (isinstance(ta, TAbs) and ta.nm == "float" and tb in num) or (isinstance(tb, TAbs) and tb.nm == "float" and ta in num):
+            fl, iv = (a, b) if isinstance(ta, TAbs) else (b, a)
+            f = z3.Function("float_eq_int", fl.ty.sort(), z3.IntSort(), z3.BoolSort())
+            return f(fl.term, self.coerce(iv, TInt).term)
         if isinstance(ta, TAbs) and isinstance(tb, TAbs) and ta == tb:
             return a.term == b.term
         if ta is TAny and tb is TAny:
@@ -764,6 +792,24 @@ class Interp:
                                 return True
                             cc = BUILTIN_EXC_BASES.get(cc)
         return False
+
+
+def acc(t):
+    """accessor(constructor(args)) -> arg, syntactically (z3.simplify is not used on terms that flow
+    into formulas: it introduces internal symbols and its sequence rewriter is unreliable)."""
+    try:
+        if z3.is_app(t) and t.num_args() == 1:
+            a = t.arg(0)
+            if z3.is_app(a) and a.sort().kind() == z3.Z3_DATATYPE_SORT and a.decl().kind() == z3.Z3_OP_DT_CONSTRUCTOR and t.decl().kind() == z3.Z3_OP_DT_ACCESSOR:
+                dt = a.sort()
+                for ci in range(dt.num_constructors()):
+                    if dt.constructor(ci).name() == a.decl().name():
+                        for ai in range(dt.constructor(ci).arity()):
+                            if dt.accessor(ci, ai).name() == t.decl().name():
+                                return a.arg(ai)
+    except z3.Z3Exception:
+        pass
+    return t
 
 
 def _has_seq(t) -> bool:
